@@ -1,6 +1,7 @@
 /* C04 -- PLS regression is a correct least-squares family: OLS limit at nlv = rank, monotone RSS / R2, regression-
  * coefficient form = score-based predictor (ny = 1, DESIGN 6.0), affine equivariance of a single centred response.
- * One execution = one input (X, Y, unseen Z, scaling pair) fitted with nlv = rank; every a <= rank is judged on it. */
+ * One execution = one input (X, Y, unseen Z, scaling pair) fitted with all its well-posed latent variables (nlv = rank
+ * unless the Krylov space is exhausted earlier); every a <= nlv is judged on it. */
 #include "C03_pls.h"
 
 static const int SHAPES[8][2] = {{6, 1}, {7, 2}, {8, 3}, {12, 4}, {10, 4}, {9, 8}, {20, 6}, {40, 10}};
@@ -43,18 +44,21 @@ static void body(void) {
   int amax = 0; while (amax < p && tol_cos(n, p, kappa, gamma, amax + 1) <= TOLC_CAP) amax++;
   rm_free(Er); rm_free(Fr);
   vx_require(amax >= 1);
+  /* the model is fitted with the well-posed latent variables only: beyond them the NIPALS inner loop iterates on rounding
+   * residue of an exhausted Y (0/0 in exact arithmetic) and need not terminate -- degenerate data, judged by C18 */
+  const int A = amax;
+  vx_log("C04 n=%d p=%d ny=%d xs=%d ys=%d kappa(E)=%g amax=%d tolc(amax)=%g noise=%d fam=%d xv=%d yv=%d\n", n, p, ny, xs, ys, kappa, amax, tol_cos(n, p, kappa, gamma, amax), noise, fam, xv, yv);
 
   matrix *mx = hm_new(n, p, X_), *my = hm_new(n, ny, Y_), *mz = hm_new(NZ, p, Z_);
   PLSMODEL *m; NewPLSModel(&m);
   static char tk[64]; snprintf(tk, sizeof tk, "nonterm|PLS|%s", cny); TICKKEY = tk;
-  vx_tick_reset(); PLS(mx, my, (size_t)p, xs, ys, m, NULL); vx_transition(1);
+  vx_tick_reset(); PLS(mx, my, (size_t)A, xs, ys, m, NULL); vx_transition(1);
   matrix *ypX, *ypZ, *tz; initMatrix(&ypX); initMatrix(&ypZ); initMatrix(&tz);
   PLSYPredictorAllLV(mx, m, NULL, ypX); PLSYPredictorAllLV(mz, m, tz, ypZ); vx_transition(2);
-  vx_log("C04 n=%d p=%d ny=%d xs=%d ys=%d kappa(E)=%g amax=%d tolc(amax)=%g noise=%d fam=%d xv=%d yv=%d\n", n, p, ny, xs, ys, kappa, amax, tol_cos(n, p, kappa, gamma, amax), noise, fam, xv, yv);
-  int shp = (int)m->xscores->row == n && (int)m->xscores->col == p && (int)m->b->size == p && (int)m->recalculated_y->row == n && (int)m->recalculated_y->col == ny * p &&
-            (int)ypX->row == n && (int)ypX->col == ny * p && (int)ypZ->row == NZ && (int)ypZ->col == ny * p && (int)tz->row == NZ && (int)tz->col == p &&
-            (int)m->yloadings->row == ny && (int)m->yloadings->col == p && (int)m->xweights->row == p && (int)m->xweights->col == p;
-  vx_check(shp, KEY("shape", "PLS", cny), "dimensions of model / predictions for n=%d p=%d ny=%d nlv=%d", n, p, ny, p);
+  int shp = (int)m->xscores->row == n && (int)m->xscores->col == A && (int)m->b->size == A && (int)m->recalculated_y->row == n && (int)m->recalculated_y->col == ny * A &&
+            (int)ypX->row == n && (int)ypX->col == ny * A && (int)ypZ->row == NZ && (int)ypZ->col == ny * A && (int)tz->row == NZ && (int)tz->col == A &&
+            (int)m->yloadings->row == ny && (int)m->yloadings->col == A && (int)m->xweights->row == p && (int)m->xweights->col == A;
+  vx_check(shp, KEY("shape", "PLS", cny), "dimensions of model / predictions for n=%d p=%d ny=%d nlv=%d", n, p, ny, A);
   if (!shp) { vx_outcome(1); return; }
   int fin = hm_allfinite(m->xscores) && hv_allfinite(m->b) && hm_allfinite(m->recalculated_y) && hm_allfinite(ypX) && hm_allfinite(ypZ) && hm_allfinite(m->yloadings) && hm_allfinite(m->xweights) && hm_allfinite(m->xloadings);
   vx_check(fin, KEY("finite", "PLS", cny), "non-finite model field or prediction (n=%d p=%d ny=%d xs=%d ys=%d)", n, p, ny, xs, ys);
@@ -73,8 +77,8 @@ static void body(void) {
   /* magnitude of the terms of the back-transformed sum, per object / response / a (rounding scale) */
   /* sy[a][r] = |ysc_r| sum_{k<=a} |b_k q_rk| max_i |t_ik| over training and unseen scores */
   ld tmaxk[PMAX], sy[PMAX + 1][NYMAX];
-  for (int k = 0; k < p; k++) { tmaxk[k] = 0; for (int i = 0; i < n; i++) if (fabsl((ld)m->xscores->data[i][k]) > tmaxk[k]) tmaxk[k] = fabsl((ld)m->xscores->data[i][k]); for (int i = 0; i < NZ; i++) if (fabsl((ld)tz->data[i][k]) > tmaxk[k]) tmaxk[k] = fabsl((ld)tz->data[i][k]); }
-  for (int r = 0; r < ny; r++) { ld sc = m->ycolscaling->size > 0 ? fabsl((ld)m->ycolscaling->data[r]) : 1; sy[0][r] = 0; for (int a = 1; a <= p; a++) sy[a][r] = sy[a - 1][r] + sc * fabsl((ld)m->b->data[a - 1] * m->yloadings->data[r][a - 1]) * tmaxk[a - 1]; }
+  for (int k = 0; k < A; k++) { tmaxk[k] = 0; for (int i = 0; i < n; i++) if (fabsl((ld)m->xscores->data[i][k]) > tmaxk[k]) tmaxk[k] = fabsl((ld)m->xscores->data[i][k]); for (int i = 0; i < NZ; i++) if (fabsl((ld)tz->data[i][k]) > tmaxk[k]) tmaxk[k] = fabsl((ld)tz->data[i][k]); }
+  for (int r = 0; r < ny; r++) { ld sc = m->ycolscaling->size > 0 ? fabsl((ld)m->ycolscaling->data[r]) : 1; sy[0][r] = 0; for (int a = 1; a <= A; a++) sy[a][r] = sy[a - 1][r] + sc * fabsl((ld)m->b->data[a - 1] * m->yloadings->data[r][a - 1]) * tmaxk[a - 1]; }
 
   /* ---- (i) "with as many latent variables as the rank of X the PLS fitted responses coincide with the OLS fitted
    *      responses (computed independently)": Householder-QR least squares in long double on the preprocessed problem */
@@ -104,14 +108,14 @@ static void body(void) {
    *      iterate, so every a up to the rank is judged; allowance = rounding of the sums, no conditioning involved */
   matrix *r2; initMatrix(&r2);
   PLSRegressionStatistics(my, m->recalculated_y, r2, NULL, NULL); vx_transition(1);
-  int r2shape = (int)r2->row == p && (int)r2->col == ny;
-  vx_check(r2shape, KEY("shape", "PLSRegressionStatistics", cny), "r2 table is %zux%zu, expected %dx%d", r2->row, r2->col, p, ny);
+  int r2shape = (int)r2->row == A && (int)r2->col == ny;
+  vx_check(r2shape, KEY("shape", "PLSRegressionStatistics", cny), "r2 table is %zux%zu, expected %dx%d", r2->row, r2->col, A, ny);
   double wm = 0, wr = 0; int wma = 0, wmr = 0, wra = 0, wrr = 0; double wmv0 = 0, wmv1 = 0, wrv0 = 0, wrv1 = 0;
   for (int r = 0; r < ny; r++) {
     ld prev = ycn[r] * ycn[r], scale2 = 0;
-    for (int i = 0; i < n; i++) { ld v = fabsl((ld)Y_[i * ny + r]) + fabsl(ym[r]) + sy[p][r] + (m->ycolaverage->size > 0 ? fabsl((ld)m->ycolaverage->data[r]) : 0); scale2 += v * v; }
+    for (int i = 0; i < n; i++) { ld v = fabsl((ld)Y_[i * ny + r]) + fabsl(ym[r]) + sy[A][r] + (m->ycolaverage->size > 0 ? fabsl((ld)m->ycolaverage->data[r]) : 0); scale2 += v * v; }
     double allow = 64 * DEPS * n * (p + 2) * (double)scale2 + 1e-300;
-    for (int a = 1; a <= p; a++) {
+    for (int a = 1; a <= A; a++) {
       ld rss = 0; for (int i = 0; i < n; i++) { ld d = (ld)m->recalculated_y->data[i][ny * (a - 1) + r] - Y_[i * ny + r]; rss += d * d; }
       double d = (double)(rss - prev) / allow; if (!(d <= wm)) { wm = d; wma = a; wmr = r; wmv0 = (double)prev; wmv1 = (double)rss; }
       prev = rss;
@@ -154,9 +158,9 @@ static void body(void) {
       if (ys == -1 && d0 != 0) continue;
       ld y2max = 0; for (int i = 0; i < n; i++) { Y2_[i] = c * Y_[i] + d0; if (fabsl((ld)Y2_[i]) > y2max) y2max = fabsl((ld)Y2_[i]); }
       matrix *my2 = hm_new(n, 1, Y2_); PLSMODEL *m2; NewPLSModel(&m2);
-      snprintf(tk, sizeof tk, "nonterm|PLS|affine"); vx_tick_reset(); PLS(mx, my2, (size_t)p, xs, ys, m2, NULL);
+      snprintf(tk, sizeof tk, "nonterm|PLS|affine"); vx_tick_reset(); PLS(mx, my2, (size_t)A, xs, ys, m2, NULL);
       matrix *qX, *qZ; initMatrix(&qX); initMatrix(&qZ);
-      int okfit = (int)m2->b->size == p && hv_allfinite(m2->b);
+      int okfit = (int)m2->b->size == A && hv_allfinite(m2->b);
       if (okfit) { PLSYPredictorAllLV(mx, m2, NULL, qX); PLSYPredictorAllLV(mz, m2, NULL, qZ); }
       vx_transition(3);
       char cls[48]; snprintf(cls, sizeof cls, "c=%g,d=%g", c, d0);
